@@ -392,7 +392,7 @@ func (x *Unit) havocMods(st *State, m *modset) {
 			g = x.entry.ghost[k]
 		}
 		ng := Val{x.fresh("G_"+k, g.Sort), g.Typ}
-		if k == "now" || strings.HasPrefix(k, "calls:") {
+		if k == "now" || strings.HasPrefix(k, "calls:") || strings.HasPrefix(k, "ev_") {
 			x.assume(st, Cmp(">=", ng.T, g.T)) // the clock and call counters only move forward
 		}
 		st.ghost[k] = ng
@@ -957,7 +957,6 @@ func (x *Unit) execTypeSwitch(st *State, s *ast.TypeSwitchStmt, fl *flow, label 
 }
 
 func (x *Unit) execSelect(st *State, s *ast.SelectStmt, fl *flow, label string) *State {
-	x.envStep(st)
 	type selCase struct {
 		cc      *ast.CommClause
 		ch      Val
@@ -980,19 +979,25 @@ func (x *Unit) execSelect(st *State, s *ast.SelectStmt, fl *flow, label string) 
 		case *ast.SendStmt:
 			sc.ch = x.eval(st, cm.Chan)
 			sc.sendVal = x.eval(st, cm.Value)
-			sc.enabled, sc.known = x.sendEnabled(st, sc.ch)
 		case *ast.ExprStmt:
 			sc.recv = true
 			sc.chExpr = ast.Unparen(cm.X).(*ast.UnaryExpr).X
 			sc.ch = x.eval(st, ast.Unparen(cm.X).(*ast.UnaryExpr).X)
-			sc.enabled, sc.known = x.recvEnabled(st, sc.ch)
 		case *ast.AssignStmt:
 			sc.recv = true
 			sc.chExpr = ast.Unparen(cm.Rhs[0]).(*ast.UnaryExpr).X
 			sc.ch = x.eval(st, ast.Unparen(cm.Rhs[0]).(*ast.UnaryExpr).X)
-			sc.enabled, sc.known = x.recvEnabled(st, sc.ch)
 		}
 		cases = append(cases, sc)
+	}
+	// the operands are evaluated first, then the select waits (time passes) until a case is ready
+	x.envStep(st)
+	for _, sc := range cases {
+		if sc.recv {
+			sc.enabled, sc.known = x.recvEnabled(st, sc.ch)
+		} else {
+			sc.enabled, sc.known = x.sendEnabled(st, sc.ch)
+		}
 	}
 	inner := &flow{breaks: map[string][]*State{}, conts: fl.conts}
 	var outs []*State
@@ -1069,6 +1074,14 @@ func (x *Unit) execDefer(st *State, s *ast.DeferStmt) {
 		d.fnLit = lit
 		for _, a := range s.Call.Args {
 			d.args = append(d.args, x.eval(st, a))
+		}
+	} else if id, ok := ast.Unparen(s.Call.Fun).(*ast.Ident); ok && x.isBuiltin(s.Call, id.Name) {
+		d.builtin = id.Name
+		for _, a := range s.Call.Args {
+			d.args = append(d.args, x.eval(st, a))
+		}
+		if id.Name != "close" {
+			x.unsupportedf(s, "defer of builtin %s", id.Name)
 		}
 	} else {
 		// evaluate receiver/function value and arguments now
